@@ -23,6 +23,8 @@ structure TrackM {ρ : Type} (o : Ops ρ) (M : Int) (T : ρ → List Sample → 
   tBad : ∀ r L, T r L → o.bad r = false
   bAt : ∀ r, B r → ∃ x, o.atS r = some x ∧ o.atT r = some x.t ∧ M < x.t
   bSeek : ∀ r t, B r → (o.seek t r).2 = false ∨ B (o.seek t r).1
+  /-- seeking to a time at or before the current (beyond) sample does not move -/
+  bSeekStay : ∀ r t x, B r → o.atT r = some x → t ≤ x → (o.seek t r).2 = true → o.atT (o.seek t r).1 = some x
   bAdjust : ∀ r v, B r → B (o.adjust v r)
   bBad : ∀ r, B r → o.bad r = false
   /-- a failing `Seek` does not panic either -/
@@ -251,6 +253,23 @@ theorem bnd_trackM (h : ListLike o V abs) :
         · simp only; rw [habs']; exact fun y hy => hm y (mem_of_mem_dropLt hy)
         · simp only; rw [habs', hd]; rfl
         · exact all_gt_of_head hs hx hM d (mem_of_mem_dropLt (by rw [hd]; simp))
+  bSeekStay := by
+    intro r t x ⟨hV, hb, hs, hm, y, hy, hM⟩ hat hle hok
+    have hane : abs r.inner ≠ [] := by intro he; rw [he] at hy; simp at hy
+    have hat' : o.atT r.inner = some x := hat
+    rw [h.atT _ hV hane, hy] at hat'
+    simp at hat'
+    by_cases ht : t > M
+    · rw [bnd_seek_beyond mint M r t ht] at hok; simp at hok
+    · rw [bnd_seek_inner mint M r t ht]
+      show o.atT (o.seek (if t < mint then mint else t) r.inner).1 = some x
+      have hV' := h.seekV _ (if t < mint then mint else t) hV hane
+      have habs' : abs (o.seek (if t < mint then mint else t) r.inner).1 = abs r.inner := by
+        rw [h.seekAbs _ _ hV hane, dropLt_clamp hm]
+        apply dropLt_eq_self
+        intro z hz; rw [hy] at hz; cases hz; omega
+      rw [h.atT _ hV' (by rw [habs']; exact hane), habs', hy]
+      simp [hat']
   bAdjust := fun r v hB => hB
   bBad := by
     intro r ⟨hV, hb, _⟩
@@ -870,6 +889,157 @@ theorem nodeNext_track (ha : TrackM oa M Ta Ba ra) (hb : TrackM ob M Tb Bb rb) (
       exact ⟨⟨t1, t2⟩, rfl⟩
   · simp only [hc]
     exact ⟨⟨t1, t2⟩, rfl⟩
+
+/-- neither the node nor its sides have panicked -/
+def nodeOk (oa : Ops α) (ob : Ops β) (s : Node α β) : Prop :=
+  (s.bad || oa.bad s.a || ob.bad s.b) = false
+
+theorem nodeOk_of_st (ha : TrackM oa M Ta Ba ra) (hb : TrackM ob M Tb Bb rb) {s : Node α β}
+    {la lb : List Sample} (h : NodeSt oa ob Ta Ba Tb Bb s la lb) : nodeOk oa ob s := by
+  unfold nodeOk
+  rw [h.1, h.2.1.nbad ha, h.2.2.nbad hb]; rfl
+
+/-- the side in use stands on the last emitted timestamp with no penalty pending -/
+def NodePos (oa : Ops α) (ob : Ops β) (s : Node α β) : Prop :=
+  s.lastIsA = s.useA ∧
+  (if s.lastIsA then s.aval = true ∧ oa.atT s.a = some s.lastT ∧ s.penA = 0
+   else s.bval = true ∧ ob.atT s.b = some s.lastT ∧ s.penB = 0)
+
+theorem nodePos_of_T (ha : TrackM oa M Ta Ba ra) (hb : TrackM ob M Tb Bb rb) {s : Node α β}
+    {L : List Sample} (h : nodeT oa ob Ta Ba Tb Bb s L) :
+    ∃ la lb, NodeSt oa ob Ta Ba Tb Bb s la lb ∧ NodePos oa ob s := by
+  obtain ⟨la, lb, hst, hsame, hpen, cur, hcur, hct, _⟩ := h
+  refine ⟨la, lb, hst, hsame, ?_⟩
+  cases hl : s.lastIsA with
+  | true =>
+    rw [hl] at hcur hpen
+    simp only [if_true] at hcur hpen ⊢
+    have hne : la ≠ [] := by intro he; rw [he] at hcur; simp at hcur
+    rcases hst.2.1 with ⟨_, hav, hT⟩ | ⟨he, _, _⟩ | ⟨he, _, _⟩
+    · exact ⟨hav, by rw [ha.tAtT _ _ hT, hcur, ← hct]; rfl, hpen⟩
+    · exact absurd he hne
+    · exact absurd he hne
+  | false =>
+    rw [hl] at hcur hpen
+    simp only [Bool.false_eq_true, if_false] at hcur hpen ⊢
+    have hne : lb ≠ [] := by intro he; rw [he] at hcur; simp at hcur
+    rcases hst.2.2 with ⟨_, hbv, hT⟩ | ⟨he, _, _⟩ | ⟨he, _, _⟩
+    · exact ⟨hbv, by rw [hb.tAtT _ _ hT, hcur, ← hct]; rfl, hpen⟩
+    · exact absurd he hne
+    · exact absurd he hne
+
+theorem nodePos_of_B {s : Node α β} (h : nodeB oa ob Ta Ba Tb Bb s) : NodePos oa ob s := by
+  obtain ⟨_, hsame, hch⟩ := h
+  refine ⟨hsame, ?_⟩
+  cases hl : s.lastIsA with
+  | true => rw [hl] at hch; simp only [if_true] at hch ⊢; exact ⟨hch.1, hch.2.2.1, hch.2.2.2⟩
+  | false =>
+    rw [hl] at hch; simp only [Bool.false_eq_true, if_false] at hch ⊢
+    exact ⟨hch.1, hch.2.2.1, hch.2.2.2⟩
+
+theorem nodePos_atT {s : Node α β} (h : NodePos oa ob s) : nodeAtT oa ob s = some s.lastT := by
+  obtain ⟨hsame, hch⟩ := h
+  unfold nodeAtT
+  rw [← hsame]
+  cases hl : s.lastIsA with
+  | true => rw [hl] at hch; simp only [if_true] at hch ⊢; exact hch.2.1
+  | false => rw [hl] at hch; simp only [Bool.false_eq_true, if_false] at hch ⊢; exact hch.2.1
+
+/-- `Next` from a positioned node strictly uses up samples -/
+theorem nodeRem_next_lt (ha : TrackM oa M Ta Ba ra) (hb : TrackM ob M Tb Bb rb) {s : Node α β}
+    {la lb : List Sample} (hst : NodeSt oa ob Ta Ba Tb Bb s la lb) (hpos : NodePos oa ob s) :
+    nodeRem ra rb (nodeNext oa ob s).1 < nodeRem ra rb s := by
+  rw [(nodeNext_track ha hb s hst hpos.1).2, nodeRem_step]
+  have h1 := remOf_stepA_le ha hst.2.1
+  have h2 := remOf_stepB_le hb hst.2.2
+  obtain ⟨_, hch⟩ := hpos
+  unfold nodeRem
+  cases hl : s.lastIsA with
+  | true =>
+    rw [hl] at hch; simp only [if_true] at hch
+    have := remOf_stepA_lt ha hst.2.1 hch.1 hch.2.1 hch.2.2
+    omega
+  | false =>
+    rw [hl] at hch; simp only [Bool.false_eq_true, if_false] at hch
+    have := remOf_stepB_lt hb hst.2.2 hch.1 hch.2.1 hch.2.2
+    omega
+
+/-- the `Seek` loop from a node that stands beyond `M` -/
+theorem loopB (ha : TrackM oa M Ta Ba ra) (hb : TrackM ob M Tb Bb rb) (t : Int) :
+    ∀ (n : Nat) (s : Node α β), nodeB oa ob Ta Ba Tb Bb s → nodeRem ra rb s + 1 ≤ n →
+      nodeOk oa ob (nodeSeekLoop oa ob t n s).1 ∧
+      nodeRem ra rb (nodeSeekLoop oa ob t n s).1 ≤ nodeRem ra rb s ∧
+      ((nodeSeekLoop oa ob t n s).2 = true →
+        nodeB oa ob Ta Ba Tb Bb (nodeSeekLoop oa ob t n s).1 ∧
+        (s.lastT < t → nodeRem ra rb (nodeSeekLoop oa ob t n s).1 < nodeRem ra rb s) ∧
+        (t ≤ s.lastT → nodeAtT oa ob (nodeSeekLoop oa ob t n s).1 = some s.lastT)) := by
+  intro n
+  induction n with
+  | zero => intro s _ hn; omega
+  | succ n ih =>
+    intro s hB hn
+    have hpos := nodePos_of_B hB
+    have hat := nodePos_atT hpos
+    obtain ⟨hst, hsame, hch⟩ := hB
+    unfold nodeSeekLoop
+    simp only [hat]
+    by_cases hge : s.lastT ≥ t
+    · simp only [hge, if_true]
+      cases hu : s.useA with
+      | true =>
+        have hl : s.lastIsA = true := by rw [hsame, hu]
+        rw [hl] at hch; simp only [if_true] at hch
+        obtain ⟨hav, hBa, hata, hpa⟩ := hch
+        simp only [if_true]
+        have hbadA := ha.seekBad s.a s.lastT (Or.inr hBa)
+        refine ⟨?_, ?_, ?_⟩
+        · unfold nodeOk; simp only; rw [hst.1, hbadA, hst.2.2.nbad hb]; rfl
+        · unfold nodeRem remOf; simp only [hav, if_true]
+          have := ha.remSeekLe s.a s.lastT (Or.inr hBa); omega
+        · intro hok
+          rcases ha.bSeek s.a s.lastT hBa with hf | hB'
+          · rw [hf] at hok; cases hok
+          · have hstay := ha.bSeekStay s.a s.lastT s.lastT hBa hata (Int.le_refl _) hok
+            refine ⟨⟨⟨hst.1, Or.inr (Or.inl ⟨rfl, hav, hB'⟩), hst.2.2⟩, hl, ?_⟩,
+              fun h => by omega, fun _ => ?_⟩
+            · simp only [hl, if_true]; exact ⟨hav, hB', hstay, hpa⟩
+            · unfold nodeAtT; simp only [hu, if_true]; exact hstay
+      | false =>
+        have hl : s.lastIsA = false := by rw [hsame, hu]
+        rw [hl] at hch; simp only [Bool.false_eq_true, if_false] at hch
+        obtain ⟨hbv, hBb, hatb, hpb⟩ := hch
+        simp only [Bool.false_eq_true, if_false]
+        have hbadB := hb.seekBad s.b s.lastT (Or.inr hBb)
+        refine ⟨?_, ?_, ?_⟩
+        · unfold nodeOk; simp only; rw [hst.1, hbadB, hst.2.1.nbad ha]; rfl
+        · unfold nodeRem remOf; simp only [hbv, if_true]
+          have := hb.remSeekLe s.b s.lastT (Or.inr hBb); omega
+        · intro hok
+          rcases hb.bSeek s.b s.lastT hBb with hf | hB'
+          · rw [hf] at hok; cases hok
+          · have hstay := hb.bSeekStay s.b s.lastT s.lastT hBb hatb (Int.le_refl _) hok
+            refine ⟨⟨⟨hst.1, hst.2.1, Or.inr (Or.inl ⟨rfl, hbv, hB'⟩)⟩, hl, ?_⟩,
+              fun h => by omega, fun _ => ?_⟩
+            · simp only [hl, Bool.false_eq_true, if_false]; exact ⟨hbv, hB', hstay, hpb⟩
+            · unfold nodeAtT; simp only [hu, Bool.false_eq_true, if_false]; exact hstay
+    · simp only [hge, if_false]
+      have hlt : s.lastT < t := by omega
+      have hremlt := nodeRem_next_lt ha hb hst hpos
+      obtain ⟨⟨_, t2⟩, _⟩ := nodeNext_track ha hb s hst hsame
+      have hnil : pm2 s.lastT (dropLt (s.lastT + 1 + s.penA) []) (dropLt (s.lastT + 1 + s.penB) []) = [] := by
+        simp [pm2]
+      by_cases hok : (nodeNext oa ob s).2 = true
+      · simp only [hok, if_true]
+        rcases t2 hnil with ⟨hf, _⟩ | ⟨_, hB'⟩
+        · rw [hf] at hok; cases hok
+        · obtain ⟨i1, i2, i3⟩ := ih _ hB' (by omega)
+          refine ⟨i1, by omega, fun hq => ?_⟩
+          obtain ⟨j1, _, _⟩ := i3 hq
+          exact ⟨j1, fun _ => (by omega), fun h => (by exfalso; omega)⟩
+      · simp only [hok, Bool.false_eq_true, if_false]
+        rcases t2 hnil with ⟨_, hst'⟩ | ⟨ht, _⟩
+        · exact ⟨nodeOk_of_st ha hb hst', by omega, fun h => by cases h⟩
+        · exact absurd ht hok
 
 end node
 
